@@ -23,7 +23,7 @@ package gracefulswitch
 //@   assert at call swap#1 arg0 == bw.gsb && bw == bw.gsb.balancerCurrent && bw.gsb.balancerPending != nil && state.ConnectivityState != connectivity.Ready && bw.lastState == state && ncalls("UpdateState") == 0
 //@   assert at call UpdateState#1 recv == bw.gsb.cc && bw == bw.gsb.balancerCurrent && (state.ConnectivityState == connectivity.Ready || bw.gsb.balancerPending == nil) && arg0 == state && bw.lastState == state && ncalls("swap") == 0
 //@   assert at call swap#2 arg0 == bw.gsb && bw == bw.gsb.balancerPending && bw != bw.gsb.balancerCurrent && (state.ConnectivityState != connectivity.Connecting || bw.gsb.balancerCurrent.lastState.ConnectivityState != connectivity.Ready) && ncalls("UpdateState") == 0
-//@   assert at return end bw == bw.gsb.balancerPending || ncalls("swap") == 1
+//@   assert at return end ncalls("swap") <= 1 && implies(ncalls("swap") == 0, bw == bw.gsb.balancerPending && state.ConnectivityState == connectivity.Connecting && bw.gsb.balancerCurrent.lastState.ConnectivityState == connectivity.Ready)
 
 // swap: the pending policy's latest state is handed to the channel first, then
 // it becomes current and the pending slot is emptied; the old current policy is
